@@ -8,7 +8,9 @@ From VP Require Import Model.ModelBuilder Model.SepModel Gen.DispatchTable Exec.
 
 Definition name := N.
 Definition has_comma (n : name) : bool := (1000 <=? n)%N.
-Record Fn := { fn_arity : nat; fn_tag : Z; fn_len : option nat }.
+(* fn_len: forced output length; fn_len_if = (t, l): output length l whenever the first argument is >= t (a user function whose
+   output length depends on the parameter values) *)
+Record Fn := { fn_arity : nat; fn_tag : Z; fn_len : option nat; fn_len_if : option (Z * nat) }.
 Record Fn0 := { f0_tag : Z; f0_len : option nat }.
 Definition X := list Z.
 Definition Sc := Z.
@@ -20,8 +22,14 @@ Fixpoint encode_from (i : nat) (len : nat) (x : list Z) (args : list Z) (tag : Z
       let a := match args with [] => 0%Z | _ => nth (i mod length args) args 0%Z end in
       (a + 100 * tag + 10000 * nth i x 0)%Z :: encode_from (S i) len' x args tag
   end.
+Definition out_len (f : Fn) (x : X) (args : list Z) : nat :=
+  let dflt := match fn_len f with Some l => l | None => length x end in
+  match fn_len_if f, args with
+  | Some (t, l), a :: _ => if (t <=? a)%Z then l else dflt
+  | _, _ => dflt
+  end.
 Definition call (f : Fn) (x : X) (args : list Z) : list Z :=
-  encode_from 0 (match fn_len f with Some l => l | None => length x end) x args (fn_tag f).
+  encode_from 0 (out_len f x args) x args (fn_tag f).
 Definition call0 (f : Fn0) (x : X) : list Z :=
   encode_from 0 (match f0_len f with Some l => l | None => length x end) x [] (f0_tag f).
 
